@@ -342,6 +342,16 @@ static void c07Case(Rng &rng, CaseResult &r, const std::string &profile, bool pa
   ColoquinteParameters params = genParams(rng, true, &pdesc);
   if (paramFuzz || rng.chance(0.5)) genGlobalParams(rng, params, &gdesc, 25);
   else { params.global.maxNbSteps = (int)rng.range(1, 30); gdesc = "default-global steps=" + std::to_string(params.global.maxNbSteps); }
+  if (profile == "wide") {
+    // thousands of bins per row: keep the reoptimisation windows small (the transportation solver is
+    // quadratic in the number of bins of a window; large windows are exercised on the small grids)
+    auto &rl = params.global.roughLegalization;
+    rl.lineReoptSize = std::min(rl.lineReoptSize, 6); rl.lineReoptOverlap = std::min(rl.lineReoptOverlap, std::max(1, rl.lineReoptSize - 1));
+    rl.diagReoptSize = std::min(rl.diagReoptSize, 6); rl.diagReoptOverlap = std::min(rl.diagReoptOverlap, std::max(1, rl.diagReoptSize - 1));
+    rl.squareReoptSize = std::min(rl.squareReoptSize, 3); rl.squareReoptOverlap = std::min(rl.squareReoptOverlap, std::max(1, rl.squareReoptSize - 1));
+    params.global.maxNbSteps = std::min(params.global.maxNbSteps, 10);
+    try { params.check(); } catch (const std::exception &) { rl.lineReoptSize = 2; rl.lineReoptOverlap = 1; }
+  }
   int stages = (int)rng.range(1, 7);  // bit0 global, bit1 legalize, bit2 detailed
   bool useCb = rng.chance(0.3);
   Features f = features(c0);
